@@ -21,7 +21,23 @@ def make_frame(rng, space, table, kind, prev=None):
             row["score"] = float(rng.choice([-7.5, -1.0, 0.0, 3.25, 100.0, math.nan, math.inf]))   # NOT the objective's value
             rows.append(row)
         df = pd.DataFrame(rows)
+    # realistic frames are filtered / shuffled / concatenated pieces of earlier search_data: their index is
+    # NOT 0..n-1 (labels kept from the original frame, permuted, or repeated)
+    r = rng.random()
+    if r < 0.25 and len(df) > 1:
+        keep = [i for i in range(len(df)) if rng.random() < 0.7] or [len(df) - 1]
+        df = df.iloc[keep]                                   # subset, original labels kept
+    elif r < 0.5 and len(df) > 1:
+        order = list(range(len(df)))
+        rng.shuffle(order)
+        df = df.iloc[order]                                  # shuffled rows, labels permuted
+    elif r < 0.65:
+        df = pd.concat([df, df.iloc[[0]]])                    # duplicate label
+    elif r < 0.75:
+        df = df.copy()
+        df.index = [100 + 3 * i for i in range(len(df))]     # unrelated labels
     if rng.random() < 0.4:
+        df = df.copy()
         df["extra_col"] = 1.0
     if rng.random() < 0.4:
         cols = list(df.columns)
@@ -34,8 +50,9 @@ def monitor(ctx, spec, r):
     name = spec["name"]
     sig = dict(optimizer=name)
     if r["exc"] is not None:
-        ctx.violation(dict(sig, kind="raises", exception=r["exc"][0]), dict(spec=dunit.spec_full(spec), traceback=r["exc"][2]),
-                      "search() with memory_warm_start raised %s: %s" % r["exc"][:2])
+        # C11 says nothing about exceptions; a crash here (e.g. the known C15 crashes when the frame supplies only
+        # non-finite scores during initialisation) belongs to another property: the run is blocked, not a violation
+        ctx.blocked.append(dict(spec=dunit.spec_brief(spec), exc=r["exc"][:2]))
         return
     space = spec["space"]
     names = list(space.keys())
